@@ -27,6 +27,7 @@ def base_job(program, tag):
 class C05(Check):
     prop = "C05"
     level = "fault_enumeration"
+    builds = ("enum", "nan")
     technique = "deterministic simulation: seeded and enumerated collection schedules over a simulated heap, differential against the never-collect run"
     rule = ("a case is (program, collection schedule, address policy); programs are the repository's fixture corpus and "
             "seeded generated workloads (iterator pipelines with allocating callbacks, class/closure churn, fiber networks, "
@@ -51,6 +52,10 @@ class C05(Check):
         plan = []
         for position in range(len(programs)):
             plan.append(("enum", position))
+        if tier == "thorough":
+            # every single point x both modes once more, on the NaN-boxed build
+            for position in range(len(programs)):
+                plan.append(("enum", position, "nan"))
         seeded = 3 if tier == "quick" else 20
         for position in range(len(programs)):
             for repeat in range(seeded):
@@ -78,7 +83,10 @@ class C05(Check):
         kind = entry[0]
         if kind in ("enum", "pairs"):
             program = self.programs[entry[1]]
-            return {"kind": kind, "program": program, "label": program["name"], "sample": index}
+            build = "enum"
+            if len(entry) > 2:
+                build = entry[2]
+            return {"kind": kind, "program": program, "label": program["name"], "sample": index, "build": build}
         rng = core.rng_for(ctx.seed, "c05", index)
         if kind == "seeded":
             program = self.programs[entry[1]]
@@ -88,7 +96,10 @@ class C05(Check):
         for number in range(3):
             variants.append({"gc": schedules.random_schedule(rng, self.startup, self.startup + 400, program.get("heavy", False)),
                              "arena": schedules.random_policy(rng, 0.35)})
+        # the quantifier names both value representations: a third of the seeded cases run on the NaN-boxed build
+        # (reference and variants on the same build)
         return {"kind": "diff", "program": program, "label": program["name"], "variants": variants,
+                "build": "nan" if rng.random() < 0.34 else "enum",
                 "perturb": {"shift": rng.randrange(1, 64), "dummy_every": rng.choice([3, 5, 7, 11])}}
 
     def judge(self, ctx, case):
@@ -120,17 +131,17 @@ class C05(Check):
                 problems.append(("output differs from the never-collect run", difference))
         return problems
 
-    def reference(self, ctx, program, perturb=None):
+    def reference(self, ctx, program, perturb=None, build="enum"):
         job = base_job(program, "ref")
         job["gc"] = schedules.never()
-        reference = ctx.run(job)
+        reference = ctx.run(job, build)
         sensitive = False
         jobs = 1
         if perturb and not core.host_failure(reference):
             job2 = base_job(program, "ref-perturbed")
             job2["gc"] = schedules.never()
             job2["arena"] = {"policy": "quarantine", "shift": perturb["shift"], "dummy_every": perturb["dummy_every"]}
-            other = ctx.run(job2)
+            other = ctx.run(job2, build)
             jobs += 1
             if core.observable(other) != core.observable(reference):
                 sensitive = True
@@ -138,12 +149,13 @@ class C05(Check):
 
     def judge_diff(self, ctx, case):
         program = case["program"]
-        reference, sensitive, jobs = self.reference(ctx, program, case.get("perturb"))
+        build = case.get("build", "enum")
+        reference, sensitive, jobs = self.reference(ctx, program, case.get("perturb"), build)
         outcome = {"jobs": jobs, "violations": [], "signatures": [], "counters": {}, "fired_by_job": {}}
         counters = outcome["counters"]
         if core.host_failure(reference):
             counters["invalid_workload"] = 1
-            counters["invalid:" + core.host_failure(reference)[:60]] = 1
+            counters["invalid:" + core.host_failure(reference)[:60] + " @ " + case["label"].split("#")[0]] = 1
             return outcome
         if sensitive:
             counters["address_sensitive_programs"] = 1
@@ -151,13 +163,14 @@ class C05(Check):
             job = base_job(program, "v%d" % number)
             job["gc"] = variant["gc"]
             job["arena"] = variant.get("arena", {"policy": "quarantine"})
-            result = ctx.run(job)
+            result = ctx.run(job, build)
             outcome["jobs"] += 1
+            counters["build_" + build] = counters.get("build_" + build, 0) + 1
             outcome["fired_by_job"][str(number)] = result["fired"]
             self.count(counters, result, job)
             inside = [point for point in result["fired"] if point[0] >= self.startup]
             if inside:
-                outcome["signatures"].append("%s|%s" % (case["label"], schedules.hash_points(result["fired"])))
+                outcome["signatures"].append("%s|%s|%s" % (case["label"], build, schedules.hash_points(result["fired"])))
             for clause, detail in self.compare(reference, result, sensitive):
                 single = copy.deepcopy(case)
                 single["variants"] = [copy.deepcopy(variant)]
@@ -166,8 +179,8 @@ class C05(Check):
                 explicit["variants"][0]["gc"] = {"kind": "list", "points": result["fired"]}
                 outcome["violations"].append({
                     "clause": clause,
-                    "detail": "%s under %s / %s: %s" % (case["label"], variant["gc"].get("kind"),
-                                                          job["arena"].get("policy"), detail),
+                    "detail": "%s (%s build) under %s / %s: %s" % (case["label"], build, variant["gc"].get("kind"),
+                                                                    job["arena"].get("policy"), detail),
                     "case": single,
                     "explicit": explicit,
                 })
@@ -197,7 +210,8 @@ class C05(Check):
     def judge_enum(self, ctx, case):
         """Every single collectable allocation point x {nursery, full} (or every pair) for one program."""
         program = case["program"]
-        reference, sensitive, jobs = self.reference(ctx, program, {"shift": 7, "dummy_every": 5})
+        build = case.get("build", "enum")
+        reference, sensitive, jobs = self.reference(ctx, program, {"shift": 7, "dummy_every": 5}, build)
         outcome = {"jobs": jobs, "violations": [], "signatures": [], "counters": {}}
         counters = outcome["counters"]
         if core.host_failure(reference):
@@ -230,15 +244,16 @@ class C05(Check):
             job = base_job(program, "e")
             job["gc"] = schedules.points(plan)
             job["arena"] = {"policy": "quarantine"} if (plan[0][0] % 4) else {"policy": "eager"}
-            result = ctx.run(job)
+            result = ctx.run(job, build)
             outcome["jobs"] += 1
+            counters["build_" + build] = counters.get("build_" + build, 0) + 1
             self.count(counters, result, job)
             if result["fired"]:
-                outcome["signatures"].append("%s|%s" % (case["label"], schedules.hash_points(result["fired"])))
+                outcome["signatures"].append("%s|%s|%s" % (case["label"], build, schedules.hash_points(result["fired"])))
             for clause, detail in self.compare(reference, result, sensitive):
                 if len(outcome["violations"]) >= 3:
                     break
-                diff = {"kind": "diff", "program": program, "label": case["label"],
+                diff = {"kind": "diff", "program": program, "label": case["label"], "build": build,
                         "variants": [{"gc": job["gc"], "arena": job["arena"]}], "perturb": {"shift": 7, "dummy_every": 5}}
                 outcome["violations"].append({
                     "clause": clause,
